@@ -815,7 +815,13 @@ func (g *FnGen) frameCheckFam(kind, ref string, pos token.Pos) {
 		// a map location is named by the map expression itself
 		func() {
 			defer func() { recover() }()
-			v := env.tr(c.E)
+			var ce Expr = c.E
+			if cc, ok := ce.(*ECall); ok {
+				if cid, _ := cc.Fn.(*EIdent); cid != nil && cid.Name == "mapof" && len(cc.Args) == 1 {
+					ce = cc.Args[0]
+				}
+			}
+			v := env.tr(ce)
 			if _, ok := typeUnder(v.GT).(*types.Map); ok && v.S == "Int" {
 				alts = append(alts, fmt.Sprintf("(= %s %s)", v.T, ref))
 			}
